@@ -1,5 +1,6 @@
 //! C09: iterators. Case language (see coq/theories/Run/RunC09.v):
 //!   (9 1 shape k)                  ShapeIterator
+//!   (9 4 shape k)                  ShapeIterator, items only (index spaces beyond usize::MAX)
 //!   (9 2 kind wi src k)            tensor iterators over a source term
 //!   (9 3 order mode wi src arg k)  matrix iterators over a matrix source term
 //! Every API form that constructs the same iterator is driven and cross-checked; sources are
@@ -25,6 +26,12 @@ pub fn run(args: &[Sx]) -> Sx {
                 return bad_case();
             };
             with_d!(shape.len(), shape_iter(&shape, k))
+        }
+        Some(4) if args.len() == 3 => {
+            let (Some(shape), Some(k)) = (args[1].pairs_usize(), args[2].usize()) else {
+                return bad_case();
+            };
+            with_d!(shape.len(), shape_iter_items(&shape, k))
         }
         Some(2) if args.len() == 5 => {
             let (Some(kind), Some(wi), Some(term), Some(k)) =
@@ -106,6 +113,20 @@ fn shape_iter<const D: usize>(shape: &[(usize, usize)], k: usize) -> Sx {
         Ok((len0, steps, _)) => l(vec![len0, steps]),
         Err(c) => inconsistent(c),
     }
+}
+
+/// items only: len() / size_hint() are not called (the element count is not a usize here)
+fn shape_iter_items<const D: usize>(shape: &[(usize, usize)], k: usize) -> Sx {
+    let shape: [(&'static str, usize); D] = shape_arr(shape);
+    let Some(mut it) = guarded(|| ShapeIterator::from(shape)) else { return panicked() };
+    let mut items = vec![];
+    for _ in 0..k {
+        match guarded(|| it.next()) {
+            None => return panicked(),
+            Some(x) => items.push(opt(x.map(idx_sx))),
+        }
+    }
+    l(items)
 }
 
 fn rec(len0: Sx, steps: Sx, data: Sx) -> Sx {
